@@ -32,6 +32,14 @@ def run(ctx):
         e = evs[line - 1]
         tail = [s for s in e["segments"] if s[0] != "whole"]
         ctx.violation(f"c05:{e['endpoint']}:{e['scenario']}", f"{kind} on {e['endpoint']} ({e['scenario']}): non-whole segments {tail}, {e['note']}", e)
+    # vacuity guard: the interruption scenarios must actually have interrupted a write
+    want_int = [e for e in evs if e["scenario"] in ("write_timeout_stalled_reader", "write_timeout_stalled_peer", "call_abandoned_mid_write",
+                                                      "queued_callers_behind_abandoned_write", "queued_callers_behind_write_timeout") and e["endpoint"] != "ws_client"]
+    n_int = sum(1 for e in want_int if e["interrupted"])
+    ctx.coverage["interruption_scenarios"] = len(want_int)
+    ctx.coverage["interruption_scenarios_that_interrupted"] = n_int
+    if not want_int or n_int * 2 < len(want_int):
+        raise vlib.ToolError(f"only {n_int} of {len(want_int)} interruption scenarios interrupted a write: the stalled-peer part did not run as intended")
     ctx.coverage["evaluations"] += sum(len(e["segments"]) for e in evs)
     ctx.coverage["traces_validated_against_impl"] += len(evs) - len(res["mismatches"])
     ctx.coverage["distinct_nontrivial"] = len(evs)
